@@ -16,15 +16,16 @@ theorem per_producer_order {cap hh} (s : St μ) (h : Reachable cap hh s) (f : μ
   rw [(reachable_inv s h).fifo]
 
 theorem worker_alive {cap hh} (s : St μ) (h : Reachable cap hh s) (hne : s.handles ≠ []) : s.phase ≠ .exited := by
-  exact ((reachable_inv s h).alive hne).2.2
+  exact ((reachable_inv s h).alive hne).2.2.2
 
 /-- the worker is never stuck: unless it is inside the wrapped sink, or waiting on an empty queue,
-or has exited and released, one of its steps is enabled -/
+or has exited and released, a system step (the worker's, or one of the two steps of the `stop()`
+running inside the last handle's destructor) is enabled -/
 theorem worker_not_stuck {cap hh} (s : St μ) (h : Reachable cap hh s) :
     (∃ m, s.phase = .running m) ∨ (s.phase = .recving ∧ s.chan = []) ∨
     (s.phase = .exited ∧ (s.handles ≠ [] ∨ s.released = true)) ∨
-    ∃ l, isWorker l = true ∧ (step s l).isSome = true := by
-  have _ := h
+    ∃ l, isSystem l = true ∧ (step s l).isSome = true := by
+  have inv := reachable_inv s h
   cases hp : s.phase with
   | check => exact .inr (.inr (.inr ⟨.wCheck, rfl, by simp only [step, hp]; split <;> simp⟩))
   | recving =>
@@ -40,7 +41,12 @@ theorem worker_not_stuck {cap hh} (s : St μ) (h : Reachable cap hh s) :
     by_cases h0 : s.handles = []
     · cases hr : s.released with
       | true => exact .inr (.inr (.inl ⟨rfl, .inr rfl⟩))
-      | false => exact .inr (.inr (.inr ⟨.release, rfl, by simp [step, hp, h0, hr]⟩))
+      | false =>
+        cases hst : s.stopStage with
+        | idle => exact absurd hst (inv.stopped h0)
+        | flag => exact .inr (.inr (.inr ⟨.stopFlag, rfl, by simp [step, hst]⟩))
+        | pill => exact .inr (.inr (.inr ⟨.stopPill, rfl, by simp [step, hst]⟩))
+        | done => exact .inr (.inr (.inr ⟨.release, rfl, by simp [step, hp, h0, hr, hst]⟩))
     · exact .inr (.inr (.inl ⟨rfl, .inl h0⟩))
 
 /-! ### C09 -/
@@ -49,37 +55,64 @@ theorem drop_enabled (s : St μ) (h : Nat) (hh : h ∈ s.handles) : (step s (.dr
   simp only [step, hh, if_true]
   split <;> simp
 
-theorem stop_not_lost {cap hh} (s : St μ) (h : Reachable cap hh s) (h0 : s.handles = []) : s.stopReq = true := by
-  exact (reachable_inv s h).stopped h0
+/-- once no handle is left the stopper is running or has run, and once it has run the request is
+recorded — whatever the queue's occupancy was when the pill was tried -/
+theorem stop_not_lost {cap hh} (s : St μ) (h : Reachable cap hh s) (h0 : s.handles = []) :
+    s.stopStage ≠ .idle ∧ (s.stopStage = .done → s.stopReq = true) := by
+  have inv := reachable_inv s h
+  exact ⟨inv.stopped h0, fun hd => inv.flagSet.2 (.inr hd)⟩
 
 def rank : Phase μ → Nat
   | .check => 1 | .recving => 0 | .got _ => 3 | .running _ => 2 | .exited => 0
 
-/-- termination measure of the worker once no producer can act -/
+def stopRank : StopStage → Nat
+  | .idle => 0 | .flag => 10 | .pill => 5 | .done => 0
+
+/-- termination measure of the system steps once no producer can act (`stopPill` may append the
+pill, which costs 4, and pays 5) -/
 def measure (s : St μ) : Nat := 4 * s.chan.length + rank s.phase + 2 + (if s.released then 0 else 1) +
-  (match s.phase with | .exited => 0 | _ => 1)
+  (match s.phase with | .exited => 0 | _ => 1) + stopRank s.stopStage
 
-/-- after the last drop a worker step is enabled until the worker has exited and released
-(the wrapped sink is assumed to return from each call: `wFinish`) -/
+/-- after the last drop a system step is enabled until the worker has exited and the wrapped sink is
+released (the wrapped sink is assumed to return from each call: `wFinish`) -/
 theorem progress {cap hh} (s : St μ) (h : Reachable cap hh s) (h0 : s.handles = []) (hc : s.cap ≠ some 0)
-    (hnot : s.released = false) : ∃ l, isWorker l = true ∧ (step s l).isSome = true := by
+    (hnot : s.released = false) : ∃ l, isSystem l = true ∧ (step s l).isSome = true := by
   have inv := reachable_inv s h
-  cases hp : s.phase with
-  | check => exact ⟨.wCheck, rfl, by simp only [step, hp]; split <;> simp⟩
-  | recving =>
-    have hne := inv.noDeadlock hc (inv.stopped h0) hp
-    refine ⟨.wRecv, rfl, ?_⟩
-    simp only [step, hp]
-    cases hch : s.chan with
-    | nil => exact absurd hch hne
-    | cons x r => cases x <;> simp
-  | got m => exact ⟨.wCount, rfl, by simp [step, hp]⟩
-  | running m => exact ⟨.wFinish .ok, rfl, by simp [step, hp]⟩
-  | exited => exact ⟨.release, rfl, by simp [step, hp, h0, hnot]⟩
+  cases hst : s.stopStage with
+  | idle => exact absurd hst (inv.stopped h0)
+  | flag => exact ⟨.stopFlag, rfl, by simp [step, hst]⟩
+  | pill => exact ⟨.stopPill, rfl, by simp [step, hst]⟩
+  | done =>
+    cases hp : s.phase with
+    | check => exact ⟨.wCheck, rfl, by simp only [step, hp]; split <;> simp⟩
+    | recving =>
+      have hne := inv.noDeadlock hc hst hp
+      refine ⟨.wRecv, rfl, ?_⟩
+      simp only [step, hp]
+      cases hch : s.chan with
+      | nil => exact absurd hch hne
+      | cons x r => cases x <;> simp
+    | got m => exact ⟨.wCount, rfl, by simp [step, hp]⟩
+    | running m => exact ⟨.wFinish .ok, rfl, by simp [step, hp]⟩
+    | exited => exact ⟨.release, rfl, by simp [step, hp, h0, hnot, hst]⟩
 
-theorem worker_step_decreases (s s' : St μ) (l : Label μ) (o : Obs) (hl : isWorker l = true)
+theorem worker_step_decreases (s s' : St μ) (l : Label μ) (o : Obs) (hl : isSystem l = true)
     (hs : step s l = some (s', o)) : measure s' < measure s := by
   cases l with
+  | stopFlag =>
+    simp only [step] at hs
+    split at hs
+    · rename_i hst
+      simp at hs; obtain ⟨rfl, -⟩ := hs; simp [measure, stopRank, hst]
+    · simp at hs
+  | stopPill =>
+    simp only [step] at hs
+    split at hs
+    · rename_i hst
+      simp at hs; obtain ⟨rfl, -⟩ := hs
+      simp only [measure, stopRank, hst]
+      split <;> simp <;> omega
+    · simp at hs
   | wCheck =>
     simp only [step] at hs
     split at hs
@@ -121,15 +154,15 @@ theorem worker_step_decreases (s s' : St μ) (l : Label μ) (o : Obs) (hl : isWo
         simp at hs; obtain ⟨rfl, -⟩ := hs; simp [measure, rank, hp, hcond.2]
       · simp at hs
     · simp at hs
-  | _ => simp [isWorker] at hl
+  | _ => simp [isSystem, isWorker] at hl
 
-/-- every run made of worker steps only is finite, with a bound fixed by the state -/
-theorem worker_runs_bounded (s : St μ) (ls : List (Label μ)) (hw : ∀ l ∈ ls, isWorker l = true)
+/-- every run made of system steps only is finite, with a bound fixed by the state -/
+theorem worker_runs_bounded (s : St μ) (ls : List (Label μ)) (hw : ∀ l ∈ ls, isSystem l = true)
     (hr : (runLabels s ls).isSome = true) : ls.length ≤ measure s := by
   induction ls generalizing s with
   | nil => simp
   | cons l ls ih =>
-    have hl : isWorker l = true := hw l (by simp)
+    have hl : isSystem l = true := hw l (by simp)
     simp only [runLabels] at hr
     cases hst : step s l with
     | none => simp [hst] at hr
@@ -148,10 +181,10 @@ theorem exited_all_delivered {cap hh} (s : St μ) (h : Reachable cap hh s) (hex 
   simpa [hex, inflight, inv.exitedDone hex] using this
 
 theorem released_after_all {cap hh} (s : St μ) (h : Reachable cap hh s) (hr : s.released = true) :
-    s.phase = .exited ∧ s.handles = [] ∧ s.wrappedLog = s.accepted := by
+    s.phase = .exited ∧ s.handles = [] ∧ s.stopStage = .done ∧ s.wrappedLog = s.accepted := by
   have inv := reachable_inv s h
   have := inv.rel hr
-  exact ⟨this.1, this.2, exited_all_delivered s h this.1⟩
+  exact ⟨this.1, this.2.1, this.2.2, exited_all_delivered s h this.1⟩
 
 /-! ### C10 -/
 
@@ -198,6 +231,16 @@ theorem caller_isolation (s s' : St μ) (l : Label μ) (o : Obs) (hs : step s l 
     simp only [step] at hs
     split at hs
     · split at hs <;> (simp at hs; obtain ⟨rfl, -⟩ := hs; exact ⟨rfl, rfl, rfl, rfl, rfl, rfl⟩)
+    · simp at hs
+  | stopFlag =>
+    simp only [step] at hs
+    split at hs
+    · simp at hs; obtain ⟨rfl, -⟩ := hs; exact ⟨rfl, rfl, rfl, rfl, rfl, rfl⟩
+    · simp at hs
+  | stopPill =>
+    simp only [step] at hs
+    split at hs
+    · simp at hs; obtain ⟨rfl, -⟩ := hs; exact ⟨rfl, rfl, rfl, rfl, rfl, rfl⟩
     · simp at hs
   | _ => simp [isWorker] at hl
 
